@@ -232,6 +232,22 @@ def agreement_encodings():
         ("extreme ints 2**31-1/-2**31", enc_scalar({0: 2**31 - 1, 1: -2**31})),
         ("np.uint8 255/0", enc_scalar({0: np.uint8(255), 1: np.uint8(0)})),
         ("strings 'None'/'-1'/'0'", enc_multiclass(["None", "-1", "0", ""])),
+        # 64-bit unsigned ids beyond 2**53 (hashed class ids): distinct as integers, equal after a detour through float64
+        ("np.uint64 2**63+1/2**63+2", enc_scalar({0: np.uint64(2**63 + 1), 1: np.uint64(2**63 + 2)})),
+        ("np.uint64 ids beyond 2**53, 3 classes", enc_multiclass([np.uint64(2**60 + 1), np.uint64(2**60 + 2), np.uint64(2**60 + 3)])),
+        ("1-element uint64 arrays beyond 2**53", wrap(lambda v: np.array([v], dtype=np.uint64), lambda v: np.array([v], dtype=np.uint64),
+                                                     enc_scalar({0: 2**63 + 1, 1: 2**63 + 2}))),
+        # pandas categoricals whose category lists differ between y_true and y_pred (predictions inferred from model output:
+        # a class missing, another order): the labels are the category VALUES, not the integer codes
+        ("categorical Series, different category lists", wrap(lambda v: pd.Series(pd.Categorical([v], categories=["a", "b", "c"])),
+                                                             lambda v: pd.Series(pd.Categorical([v], categories=["c", "a", "b"])),
+                                                             enc_multiclass(["a", "b", "c"]))),
+        ("pd.Categorical, y_pred with a category missing / extra", wrap(lambda v: pd.Categorical([v], categories=["x", "y", "z"]),
+                                                                       lambda v: pd.Categorical([v], categories=[c for c in ["w", "z", "y", "x"] if c != "w" or True]),
+                                                                       enc_multiclass(["x", "y", "z"]))),
+        ("categorical Series of ints, reversed categories", wrap(lambda v: pd.Series(pd.Categorical([v], categories=[1, 2, 3])),
+                                                                lambda v: pd.Series(pd.Categorical([v], categories=[3, 2, 1])),
+                                                                enc_multiclass([1, 2, 3]))),
         ("1-element lists", wrap(lambda v: [v], lambda v: [v])),
         ("1-element tuples of strings", wrap(lambda v: (v,), lambda v: (v,), enc_scalar({0: "x", 1: "y"}))),
         ("1-element ndarrays", wrap(lambda v: np.array([v]), lambda v: np.array([v]))),
@@ -297,7 +313,7 @@ def junk_values():
 
 
 def part_a(ctx, rng):
-    n_seq = 20 if ctx.quick else 200
+    n_seq = 13 if ctx.quick else 200
     n_seq_lfr = 5 if ctx.quick else 40
     for name, make, n, mode in label_detectors():
         encs = agreement_encodings() if mode == "agreement" else cell_encodings()
@@ -339,6 +355,28 @@ def part_a(ctx, rng):
                              detector=name, encoding=ename, canonical_pairs=pairs[:step + 1],
                              encoded_pairs=[[repr(a), repr(b)] for a, b in enc_pairs[:step + 1]],
                              np_random_seeds=seeds[:step + 2], step=step, observable=d[1], canonical=d[2], encoded=d[3])
+            # a bare number as X (a univariate stream's observation) while the labels arrive in 1-element containers, by keyword
+            # and by position: X is documented as unused, whatever the shapes of the three arguments
+            sr = np.random.default_rng([ctx.seed, k, 98])
+            box = [lambda v: np.array([v]), lambda v: [v], lambda v: np.array([[v]])][k % 3]
+            xs_menu = [0, 1, 0.5, -1.0, 2, np.float64(1.0), np.int64(0)]
+            calls = []
+            for j, (yt, yp) in enumerate(pairs):
+                xv = xs_menu[int(sr.integers(len(xs_menu)))]
+                if j % 2 == 0:
+                    calls.append(("update", (), {"y_true": box(yt), "y_pred": box(yp), "X": xv}))
+                else:
+                    calls.append(("update", (box(yt), box(yp), xv), {}))
+            tr = run_calls(make, calls, seeds)
+            ctx.traces += 1
+            ctx.case(("A-Xscalar", name, tuple(pairs)), True)
+            ctx.count("B:scalar X with boxed labels")
+            d = first_diff(base, tr)
+            if d is not None:
+                ctx.fail(signature={"class": "c16-unused-argument", "detector": name, "argument": "X"},
+                         what=f"{name}: outputs change when a bare number is passed as X and the labels in 1-element containers, at update {d[0]}, observable {d[1]}",
+                         detector=name, canonical_pairs=pairs[:d[0] + 1], np_random_seeds=seeds[:d[0] + 2],
+                         step=d[0], observable=d[1], without=d[2], with_junk=d[3])
             # junk in X
             jr = np.random.default_rng([ctx.seed, k, 99])
             jv = junk_values()
